@@ -1,5 +1,5 @@
 // units/dec_comp/env.rs — environment of the composite decoders: client id, allocation budget, the sliced traits
-// `Decoder` / `Decode` (+ `Encoder` / `Encode`), DecoderV1 / EncoderV1, strings.
+// `Decoder` / `Decode`, DecoderV1 / DecoderV2, counted lists on the wire.
 
 // ---------------------------------------------------------------------------------------------
 // ClientID (yrs/src/block.rs) — STAND-IN (R13).  The real type is `ClientID(NonZeroU64)`; the real constructor is
@@ -8,7 +8,9 @@
 //         return ClientID(unsafe { NonZeroU64::new_unchecked(value | Self::MASK) });
 //     }
 // (cfg blocks + unsafe: not ingestible).  The stand-in keeps the yjs value (`get()`), and `new` carries the
-// `debug_assert!` of the real body as its precondition (what rule R9 makes of a debug_assert!).
+// `debug_assert!` of the real body as its precondition (what rule R9 makes of a debug_assert!): every call site of
+// `ClientID::new` in a verified body must prove that the value fits into 53 bits.  `ClientID::decode` (the checked
+// constructor for untrusted input) is the REAL body.
 // ---------------------------------------------------------------------------------------------
 #[derive(PartialEq, Eq, PartialOrd, Ord, Clone, Copy, Hash)]
 pub struct ClientID(pub u64);
@@ -439,18 +441,27 @@ pub proof fn lemma_dec_list_step<T>(f: spec_fn(Seq<u8>) -> Option<(T, nat)>, c: 
     }
 }
 
-/// the run is complete
-pub proof fn lemma_dec_list_done<T>(f: spec_fn(Seq<u8>) -> Option<(T, nat)>, s: Seq<u8>, acc: Seq<T>, k: nat)
+/// the run is complete, seen from the start of the whole value (`k` bytes of count, then the items)
+pub proof fn lemma_counted_finish<T>(f: spec_fn(Seq<u8>) -> Option<(T, nat)>, s0: Seq<u8>, k: nat, n: nat, s1: Seq<u8>, acc: Seq<T>, kk: nat)
+    requires
+        k <= s0.len(),
+        s1 == s0.skip(k as int),
+        kk <= s1.len(),
+        dec_list(f, s1, n) == list_join(acc, kk, dec_list(f, s1.skip(kk as int), 0)),
     ensures
-        list_join(acc, k, dec_list(f, s, 0)) == Some((acc, k)),
+        dec_list(f, s1, n) == Some((acc, kk)),
+        s1.skip(kk as int) == s0.skip((k + kk) as int),
+        k + kk <= s0.len(),
 {
     assert(acc + Seq::<T>::empty() =~= acc);
+    assert(s0.skip(k as int).skip(kk as int) =~= s0.skip((k + kk) as int));
 }
 
 /// the start of a run
 pub proof fn lemma_dec_list_start<T>(f: spec_fn(Seq<u8>) -> Option<(T, nat)>, s: Seq<u8>, n: nat)
     ensures
         dec_list(f, s, n) == list_join(Seq::<T>::empty(), 0, dec_list(f, s.skip(0), n)),
+        s.skip(0) == s,
 {
     assert(s.skip(0) =~= s);
     match dec_list(f, s, n) {
